@@ -12,6 +12,7 @@ from modcorpus import *
 import ext_layer            # extensibility layer (lib/ext_layer.py, notes/design/EXT.md)
 import setdef_layer         # SET / DEFAULT layer (lib/setdef_layer.py, notes/design/SetDef.md)
 import primb_layer          # restricted character strings (lib/primb_layer.py, notes/design/PrimB.md)
+import prima_layer          # ENUMERATED / BIT STRING layer (lib/prima_layer.py, notes/design/PrimA.md)
 
 
 def has_semi(tree):
@@ -184,6 +185,7 @@ def main(tier):
     ext_layer.run_c02(run, rng, tier)
     setdef_layer.run_c02(run, rng, tier)
     primb_layer.run_c02(run, rng, tier)
+    prima_layer.run_c02(run, rng, tier)
     tb = ["Coq 8.16.1 kernel; vm_compute for refuted witnesses and Examples", "axioms under Print Assumptions: " + (", ".join(sorted(axioms)) or "none (Closed under the global context)"),
           "extraction: ExtrOcamlBasic only, per-area files; OCaml 4.13.1; zarith for I/O in drvlib.ml",
           "lib/modgen.py: generator and its own implementation of X.680 tagging (effective tags given to the model)",
